@@ -16,6 +16,7 @@ def run_registry(ctx, mon_cfg, nl, ns):
     svc += core.generate(ctx, "Gen_Registry.tla", "Gen_Registry_Together.cfg", 0, 0, ctx.seed, bfs=True, timeout=900) * (4 if ctx.tier == "quick" else 16)      # connections cut at the same moment
     if nl > 0:
         lsn += core.generate(ctx, "Gen_Registry.tla", "Gen_Registry_Restart.cfg", 0, 0, ctx.seed, bfs=True, timeout=900)      # listeners across restarts
+        lsn += core.generate(ctx, "Gen_Registry.tla", "Gen_Registry_Shared.cfg", 0, 0, ctx.seed, bfs=True, timeout=900)      # two External listeners on one endpoint
     ctx.say("  behaviours: %d listener walks (<= 2 HTTP listeners each) + %d service-connection walks" % (len(lsn), len(svc)))
     behs = lsn + svc
     hb = core.build_harness(ctx)
